@@ -804,6 +804,43 @@ def r05_10(chk, tier, units=('jsonpath', 'jmespath')):
                     cls, fn['n'], x.get('op'), dtxt[:40], x.get('l')), None, fn['q'])
     chk.require(n >= 2, 'R05.10: only %d integer divisions found in the evaluators' % n)
 
+def r05_12(chk, tier, units=('core', 'csv', 'jsonpath', 'jmespath', 'patch', 'toon')):
+    """Byte counts of the mem* functions."""
+    chk.rule('R05.12', 'mem* byte counts: in every memcpy / memmove / memcmp whose operands are not plain bytes (wchar_t, a character type '
+                       'parameter, words, whole objects) the size argument is a sizeof expression, a product with one, or a literal (fixed-width '
+                       'punning); an element count passed as a byte count compares or copies a quarter of a wchar_t string', floor=40)
+    def bytelike(t):
+        t = t.replace('const ', '').replace('volatile ', '')
+        if any(w in t for w in ('wchar_t', 'char16_t', 'char32_t', 'type-parameter', 'dependent', 'CharT', 'char_type')): return False
+        return any(w in t for w in ('unsigned char', 'signed char', 'char', 'uint8_t', 'std::byte', 'void'))
+    n = 0; seen = set()
+    for unit in units:
+        facts = F.load([unit], tier)
+        if unit not in chk.units: chk.units.append(unit)
+        for fn in facts.functions:
+            if fn.get('body') is None or not fn['file'].startswith('include/'): continue
+            for c in A.calls_in(fn['body'], no_lambda=True):
+                if A.callee_name(c) not in ('memcmp', 'memcpy', 'memmove') or len(c.get('args') or []) < 3: continue
+                args = c['args']
+                def pt(a):
+                    s_ = A.strip(a, casts=True)
+                    return fn['_types'][s_['t'] - 1] if s_ is not None and s_.get('t') else '?'
+                ta, tb = pt(args[0]), pt(args[1])
+                key = (fn['file'], c.get('l'), bytelike(ta) and bytelike(tb))
+                if key in seen: continue
+                seen.add(key); n += 1
+                site = '%s:%s %s(%s, %s)' % (fn['file'], fn['n'], A.callee_name(c), ta[:30], tb[:30])
+                if bytelike(ta) and bytelike(tb):
+                    chk.ok('R05.12', site, None, nontrivial=False); continue
+                kinds = [y.get('k') for y in A.walk(args[2])]
+                sized = any(k in ('UnaryExprOrTypeTraitExpr', 'CXXUnresolvedConstructExpr', 'SizeOfPackExpr') for k in kinds) or A.strip(args[2], casts=True).get('k') == 'IntegerLiteral'
+                if sized: chk.ok('R05.12', site, {'line': c.get('l'), 'size': A.text(args[2])[:50]})
+                else:
+                    chk.analysed(fn)
+                    chk.fail('R05.12', site, fn['file'], c.get('l'), '%s: %s on `%s` / `%s` with size `%s`, which counts elements: for a character type wider than one byte only '
+                             'part of the range is compared/copied' % (fn['n'], A.callee_name(c), ta[:40], tb[:40], A.text(args[2])[:40]), None, fn['q'])
+    chk.require(n >= 40, 'R05.12: only %d mem* calls found' % n)
+
 def run(chk, tier, only_rule=None):
     chk.explanation = EXPLANATION
     chk.not_decided = NOT_DECIDED
@@ -822,3 +859,7 @@ def run(chk, tier, only_rule=None):
     from . import c04
     c04.r04_5(chk, facts)
     c04.r04_6(chk, facts)
+    r05_12(chk, tier)
+    from . import c15
+    for u_ in ('core', 'csv', 'jsonpath', 'jmespath', 'toon'):
+        c15.r15_8(chk, F.load([u_], tier), rid='R05.13', floor=1)
